@@ -12,6 +12,9 @@ Rewrites (see DESIGN.md 2.3):
  6. x.dtype                  -> _sx.dtype_of(x)
  7. builtins isinstance/int/float/str/len/range/min/max/abs/sum/round/bool/sorted/zip... are
     shadowed in the module globals by symbolic-aware versions (no source change).
+ 8. float literals that are not binary fractions (0.1, 5.792105e-2) -> _sx.flit(v): their exact
+    decimal value in exact mode, the ordinary float otherwise.
+ 9. a & b, a | b, a ^ b       -> _sx.bitop(...)  (keeps the dtype of numpy scalars next to object arrays)
 """
 import ast
 import importlib.abc
@@ -126,6 +129,17 @@ class Rewriter(ast.NodeTransformer):
         if node.attr == 'dtype' and isinstance(node.ctx, ast.Load):
             STATS['dtype'] += 1
             return ast.copy_location(ast.Call(func=_sx('dtype_of'), args=[node.value], keywords=[]), node)
+        return node
+
+    # ---- 8. decimal float literals
+    def visit_Constant(self, node):
+        v = node.value
+        if isinstance(v, float) and v == v and v not in (float('inf'), float('-inf')):
+            from fractions import Fraction
+            if Fraction(repr(v)) != Fraction(v):
+                # a literal such as 5.792105e-2 that is not a binary fraction: in the exact-real model
+                # it denotes its decimal value (rounding is outside every numeric claim)
+                return ast.copy_location(ast.Call(func=_sx('flit'), args=[ast.Constant(value=v)], keywords=[]), node)
         return node
 
     # ---- 3. in / not in
